@@ -32,6 +32,14 @@ def run_for_kernels(kernels, repo):
     base = tempfile.mkdtemp(prefix='asca-verif-mut-')
     results = []
 
+    # obligations that already fail on the unmutated tree (recorded findings): a mutant counts as killed only by a NEW one
+    baseline = {}
+    for k in sorted(set(m['kernel'] for m in todo)):
+        wd0 = os.path.join(base, '_baseline_' + k)
+        os.makedirs(wd0)
+        r0 = verus_run.run_kernel(k, repo, wd0, canary=False)
+        baseline[k] = set((f['obligation'], f['message']) for f in r0.get('failed', [])) if r0['status'] == 'failed' else set()
+
     def one(m):
         d = os.path.join(base, m['id'])
         os.makedirs(d)
@@ -46,7 +54,11 @@ def run_for_kernels(kernels, repo):
         os.makedirs(wd)
         r = verus_run.run_kernel(m['kernel'], d, wd, canary=False)
         if r['status'] == 'failed':
-            return dict(id=m['id'], kernel=m['kernel'], outcome='killed', by=sorted(set(f['obligation'] for f in r['failed']))[:4])
+            fresh = sorted(set(f['obligation'] + ('' if f['obligation'] not in [b[0] for b in baseline[m['kernel']]] else ' (' + f['message'] + ')')
+                               for f in r['failed'] if (f['obligation'], f['message']) not in baseline[m['kernel']]))
+            if fresh:
+                return dict(id=m['id'], kernel=m['kernel'], outcome='killed', by=fresh[:4])
+            return dict(id=m['id'], kernel=m['kernel'], outcome='SURVIVED', note='only the obligations that already fail on the unmutated tree fail')
         if r['status'] == 'undecided':
             return dict(id=m['id'], kernel=m['kernel'], outcome='undecided', note=r.get('reason', '')[:200])
         return dict(id=m['id'], kernel=m['kernel'], outcome='SURVIVED', note='contract too weak to notice this change')
